@@ -76,3 +76,35 @@ def cull (g : LGraph) (keys : List Obj) : Option (LGraph × List (Obj × List Ob
      visited.map (fun k => (k, match g.lookup k with | some t => legacyRefs allKeys t | none => [])))
 
 end Dask.TaskTerm
+
+namespace Dask.TaskTerm
+
+/-! ### a checker for the outputs of the substitution-based passes (`inline`, `inline_functions`, `fuse_linear`, `fuse`) -/
+
+/-- the term obtained from `t` by replacing every reference to a key of `S` by the (recursively) final term of that
+    key's definition — what `fuse`/`inline` build bottom-up with `subs` -/
+def finalTerm (g : LGraph) (K S : List Obj) : Nat → Obj → Obj
+  | 0, t => t
+  | fuel + 1, t =>
+    (legacyRefs K t).foldl (fun acc c =>
+      if S.contains c then
+        match g.lookup c with
+        | some tc => subs c (finalTerm g K S fuel tc) acc
+        | none => acc
+      else acc) t
+
+/-- `fuseOK g h S req`: the output graph `h` is the input graph `g` with the keys of `S` substituted by their
+    definitions everywhere, some of the substituted keys deleted, nothing else changed, no dangling reference, and every
+    requested key kept. -/
+def fuseOK (g h : LGraph) (S req : List Obj) : Bool :=
+  let K := g.map Prod.fst
+  let K' := h.map Prod.fst
+  h.all (fun kv => match g.lookup kv.1 with
+    | some t => kv.2 == finalTerm g K S (g.length + 1) t
+    | none => false) &&
+  K.all (fun k => K'.contains k || S.contains k) &&
+  h.all (fun kv => (legacyRefs K kv.2).all (fun d => K'.contains d)) &&
+  req.all (fun k => K'.contains k) &&
+  S.all (fun c => inKeys K c)
+
+end Dask.TaskTerm
